@@ -9,7 +9,7 @@ CONSTANTS
   TopOps <- Ops_ATopAll
   BodyOps <- Ops_ABody
   MethOps <- Ops_AMethAll
-  LogLevels = {}
+  LogLevels = {"open", "error"}
   RunTimes = {0, 1, 3}
 INVARIANT NoViolation ExportInv
 CHECK_DEADLOCK FALSE
